@@ -183,6 +183,14 @@ fn gen(g: &mut G) -> Plan {
     if headers.len() > 1 && g.chance(1, 2) {
         headers.reverse();
     }
+    // (no draw) a field line whose name is not a token, ahead of the framing fields: a client may refuse the
+    // head or skip the line - the fields after it still frame the body
+    let bad_line = !must_be_empty && n % 7 == 6 && matches!(expect, Expect::Body(_));
+    if bad_line {
+        headers.insert(0, ("bad name".to_string(), b"x".to_vec()));
+        g.probe("field-line-with-a-non-token-name-before-the-framing-fields");
+    }
+    let folded = folded || bad_line;
     headers.push(("X-T".into(), b"1".to_vec()));
     let mut wire = Wire::default();
     wire.bytes = httpref::encode_head(status, "Whatever", &headers);
